@@ -97,6 +97,7 @@ def run_job(job):
         plain = sym.sym_bytes("plain", 3)
         conf = sym.sym_bytes("conf", job["n"])
         vals.update(plain=plain, conf=conf)
+        runner.track(vals)
         f = bf.Bf3File({}, [bf.Bf3Component({0xC3: b"\x02"}, plain), bf.Bf3Component({0xC3: b"\x03", 0xC2: b"\x02", 0xC1: b"\x03", 0xC5: b"\x01"}, conf, job["n"], encrypt_by_session_key=True)])
         recipient = UFPrivate.generate()
         blocks = []
